@@ -30,11 +30,14 @@ Proof. exact (C13_structured c s r s'). Qed.
 Theorem C14_ok_means_exhausted c es s k s' : run c (init c) es k = (s, None) -> c_take c = None -> c_term c = TTryForEach ->
   step c s (EResult ROkUnit) = Some s' -> src_done s = true.
 Proof. exact (C14_ok_source c es s k s'). Qed.
+Theorem C14_collect_ok_means_exhausted c es s k items s' : run c (init c) es k = (s, None) -> c_take c = None -> c_term c = TCollectRes ->
+  step c s (EResult (RVec items)) = Some s' -> src_done s = true /\ residual s = None.
+Proof. exact (C14_ok_source_collect c es s k items s'). Qed.
 (* cancellation: after the result or the drop nothing completes and no closure runs *)
 Theorem C14_cancelled_work_never_completes c s e s' : step c s e = Some s' -> (ph s = PDone \/ ph s = PDropped) ->
   match e with EDone _ _ _ | ECall _ _ _ | ESrc _ | EResult _ => False | _ => True end.
 Proof. exact (C14_cancel c s e s'). Qed.
-Print Assumptions C14_stops_taking. Print Assumptions C14_result_structured. Print Assumptions C14_error_is_genuine. Print Assumptions C14_ok_means_exhausted.
+Print Assumptions C14_stops_taking. Print Assumptions C14_result_structured. Print Assumptions C14_error_is_genuine. Print Assumptions C14_ok_means_exhausted. Print Assumptions C14_collect_ok_means_exhausted.
  Print Assumptions C14_cancelled_work_never_completes.
 
 Example C14_witness :
